@@ -388,6 +388,17 @@ def operandOfStr? (kind payload : String) : Option Operand :=
   if kind = "str" then some (.str (payload.toList.drop 1))
   else if kind = "bytes" || kind = "bytearray" || kind = "memoryview" then (hexField? payload).map .bytes
   else if kind = "bytesio" then (hexField? payload).map .bytesIO
+  else if kind = "mvslice" then
+    -- a memoryview slice `memoryview(data)[a:b:c]`: its content is the Python slice of the bytes
+    match payload.splitOn ";" with
+    | [h, sl] =>
+      match hexField? h, (sl.splitOn ":").map optIntOfStr? with
+      | some bs, [some a, some b, some c] =>
+        match Py.getSlice bs a b c with
+        | .ok r => some (.bytes r)
+        | .error _ => none
+      | _, _ => none
+    | _ => none
   else if kind = "fileobj" then (hexField? payload).map .fileObj
   else if kind = "array" then
     match payload.splitOn ":" with
@@ -453,6 +464,27 @@ def handle (args : List String) : String :=
       | "prom", [sa, kind, payload] =>
         match objOfStr? sa, operandOfStr? kind payload with
         | some a, some x => s!"ok {fourOp a x}"
+        | _, _ => "bad-op"
+      | "promst", [sa, _order, kind, _state, payload] =>
+        -- the SAME operand object, in some earlier state (written, partly read, used before …), compared eight
+        -- times (each form twice) and then used twice as an initialiser: an operand has no state in the model —
+        -- promotion takes the whole content — so every evaluation is the same function of the content.
+        match objOfStr? sa, operandOfStr? kind payload with
+        | some a, some x =>
+          let e := tf (eqAlg a x)
+          let n := tf (neAlg a x)
+          let built : String :=
+            match promote x with
+            | .ok st =>
+              let b : Obj := ⟨a.cls, st, 0⟩
+              let c : Obj := ⟨a.cls, st, 0⟩
+              let r : Obj := ⟨a.cls, { raw := st.bits }, 0⟩
+              let hs := match inSet T A B lsb0 r b, inSet T A B lsb0 b c with
+                | .ok p, .ok q => (if p then "T" else "F") ++ (if q then "T" else "F")
+                | _, _ => "UU"
+              tf (eqAlg b (.bitstring r)) ++ tf (eqAlg c (.bitstring r)) ++ tf (eqAlg b (.bitstring c)) ++ hs
+            | .error _ => "E"
+          s!"ok {e}{e}{n}{n}{e}{e}{n}{n} {built}"
         | _, _ => "bad-op"
       | "nonprom", [sa, kind, payload] =>
         match objOfStr? sa, operandOfStr? kind payload with
